@@ -398,3 +398,19 @@ mod tests {
         assert_eq!(result.len(), 2);
     }
 }
+
+/// Access to the private stages of this module for the verification harness.
+#[cfg(feature = "verif-hooks")]
+pub mod verif {
+    use crate::polynomial::Polynomial;
+    use num::BigInt;
+    pub fn squarefree(poly: &Polynomial<BigInt>, p: &BigInt, pusize: usize) -> Vec<(Polynomial<BigInt>, usize)> {
+        super::squarefree::<BigInt>(poly, p, pusize)
+    }
+    pub fn degree(poly: &Polynomial<BigInt>, p: &BigInt) -> Vec<(Polynomial<BigInt>, usize)> {
+        super::degree::<BigInt>(poly, p)
+    }
+    pub fn final_split(poly: &Polynomial<BigInt>, p: &BigInt, d: usize) -> Vec<Polynomial<BigInt>> {
+        super::final_split::<BigInt>(poly, p, d)
+    }
+}
